@@ -92,7 +92,7 @@ class C04(Prop):
                   'against the real parser (stub decoder on both sides) and against TransportTCP, TransportAioHttpWebsocket and the QUIC transport with the real decoder. '
                   'Transport.lean models the receiver loop over TransportTCP.next_frame_generator read by read (data / end of stream / failing read) and over the queue of a message transport: '
                   'c04_tcp_reads_then_eof (whatever arrived complete before the end of the stream is dispatched, also from the last read, however read() cut it), c04_tcp_any_two_read_sequences, c04_tcp_frames_exact, '
-                  'c04_tcp_error_after_reads, c04_tcp_open_is_parser, c04_tcp_empty_read_is_eof, c04_msg_queue_exact; c04_ws_messages_exact / c04_ws_failure_after_messages (the message pump of the websocket transports: every non-empty binary message contributes its own decoding, other kinds of message and empty ones nothing, a failing websocket loses nothing received before it) compared with the aiohttp client and server transports on scripted websockets; c04_tcp_link_exact (Props/C04Link.lean) composes codec, partial writes, parser and transport loop: the writes of TransportTCP.send_frame for any list of legal frames, read back in any non-empty pieces and followed by the end of the stream, are dispatched as exactly those frames; compared with a real TransportTCP over a real StreamReader on scripted reads.')
+                  'c04_tcp_error_after_reads, c04_tcp_open_is_parser, c04_tcp_empty_read_is_eof, c04_msg_queue_exact; c04_ws_messages_exact / c04_ws_failure_after_messages (the message pump of the websocket transports: every non-empty binary message contributes its own decoding, other kinds of message and empty ones nothing, a failing websocket loses nothing received before it) compared with the aiohttp client and server transports on scripted websockets; c04_tcp_step_matches_source / c04_msg_step_matches_source: the per-read and per-entry decisions of the two loops are those of TransportTCP.next_frame_generator / AbstractMessagingTransport.next_frame_generator as compiled from their source on every run; c04_tcp_link_exact (Props/C04Link.lean) composes codec, partial writes, parser and transport loop: the writes of TransportTCP.send_frame for any list of legal frames, read back in any non-empty pieces and followed by the end of the stream, are dispatched as exactly those frames; compared with a real TransportTCP over a real StreamReader on scripted reads.')
     level_note = ('Trusted: Lean kernel + standard axioms; model fidelity as far as the correspondence reaches; asyncio.StreamReader.read semantics; '
                   'bytearray slicing = List.take/drop.')
     design_ref = '§5 C04'
